@@ -17,6 +17,7 @@ in-place rescaling is stopped at every traced line; complete operations of a sec
 thread run there on the same objects; all results are compared with sequential
 results (P-256 and three small curves)."""
 import time
+import traceback
 
 from vlib import qlist, qbool
 
@@ -52,6 +53,8 @@ def graph(roles, loop, budget=120):
 
 def _model_maps(ana, g):
     """(lock permutation, counter permutation, per-role position->pc tables) or raises ValueError"""
+    if any(k != "Lock" for k in g.lock_kinds):
+        raise ValueError("the real object uses primitives other than threading.Lock: %s" % (g.lock_kinds,))
     lp = {tuple(p): i for i, p in enumerate(g.lock_paths)}
     cp = {tuple(p): i for i, p in enumerate(g.ctr_paths)}
     mlocks = [tuple(path) for _, path in ana["locks"]]
@@ -100,8 +103,10 @@ def correspondence(ctx):
     for roles, loop in lock_configs(ctx):
         try:
             g = graph(roles, loop, 120 if ctx.quick() else 900)
-        except c20_lock.HarnessError as e:
-            ctx.broken("correspondence: exploration of the real lock failed for %s loop=%s" % (roles, loop), e)
+        except Exception as e:   # noqa  (never let one configuration stop the others)
+            c20_lock.reset_pool()
+            ctx.broken("correspondence: exploration of the real lock failed for %s loop=%s" % (roles, loop),
+                       traceback.format_exc())
             continue
         if g.truncated:
             ctx.notes.append("lock correspondence skipped for %s loop=%s: %s" % (roles, loop, g.truncated))
@@ -166,10 +171,17 @@ def _search_lock(ctx):
     for roles, loop in lock_configs(ctx):
         try:
             g = graph(roles, loop, 120 if ctx.quick() else 900)
-        except c20_lock.HarnessError as e:
-            ctx.broken("search: exploration of the real lock failed for %s loop=%s" % (roles, loop), e)
+        except Exception as e:   # noqa
+            c20_lock.reset_pool()
+            ctx.broken("search: exploration of the real lock failed for %s loop=%s" % (roles, loop),
+                       traceback.format_exc())
             continue
-        viol, s = c20_lock.analyse(g)
+        try:
+            viol, s = c20_lock.analyse(g)
+        except Exception:   # noqa
+            ctx.broken("search: analysis of the explored graph failed for %s loop=%s" % (roles, loop),
+                       traceback.format_exc())
+            continue
         if g.truncated and not viol:
             ctx.broken("search: the state space of the real lock could not be explored completely (%s loop=%s)" % (
                 roles, loop), g.truncated)
@@ -245,8 +257,11 @@ def _search_curves(ctx):
 
 
 def search(ctx):
-    _search_lock(ctx)
-    _search_curves(ctx)
+    for part in (_search_lock, _search_curves):
+        try:
+            part(ctx)
+        except Exception:   # noqa
+            ctx.broken("search: %s crashed" % part.__name__, traceback.format_exc())
     ctx.extra["rule"] = (
         "lock: complete state space of the real RWLock under a line-level scheduler for the listed reader/writer "
         "configurations (threads looping forever / one session each); every transition is one correspondence case "
